@@ -9,3 +9,36 @@ claim("C01", "PBT (rapid): typed predicate grammar vs. independent reference fil
       "Generated-input search: thousands of (table, predicate) pairs per run judged by a reference evaluator written from the statement, plus engine-vs-engine laws; held on everything explored, not a proof.",
       "Trusts the harness's reference evaluator and SQL renderer (renderer is cross-checked by echo round-trips); domain restricted to same-kind operands and no backslash in LIKE patterns as the statement leaves those open.",
       "DESIGN.md 4/C01")
+
+claim("C02", "PBT (rapid): typed expression-tree grammar vs. independent float64 reference evaluator (row count, key set, values)",
+      "Generated-input search: thousands of (table, select list, WHERE) triples per run judged by a reference evaluator written from the statement; held on everything explored, not a proof.",
+      "Trusts the reference evaluator; division/modulo by zero, bitwise on negatives/fractions and unary operators on NULL are left out as unspecified; ~x accepted in both readings.",
+      "DESIGN.md 4/C02")
+claim("C03", "PBT (rapid): grouped/whole-table aggregate query grammar vs. reference grouping in first-appearance order + conservation law + 3x re-execution",
+      "Generated-input search with sequence equality against a reference group-by; three executions per case must agree; held on everything explored.",
+      "Scalar grouping keys, aggregate arguments are plain columns, AVG/COUNT(col) only on non-nullable columns (statement).",
+      "DESIGN.md 4/C03")
+claim("C04", "PBT (rapid): join grammar vs. nested-loop reference multiset + metamorphic strategy/ON-permutation invariance; PARALLEL variants repeated, one shard under the race detector",
+      "Generated-input search: every applicable join spelling (incl. hash and PARALLEL strategies) executed per case and compared with a nested-loop reference multiset; schedules are sampled by repetition, not enumerated.",
+      "No NULL join keys; HASH_JOIN spellings only with pure equi ON; thread schedules are whatever the Go scheduler yields under repetition and -race.",
+      "DESIGN.md 4/C04")
+claim("C05", "PBT (rapid): ORDER BY/LIMIT/OFFSET grammar vs. validity predicates (permutation, adjacent-pair order, NULLs last, exact window arithmetic)",
+      "Generated-input search with validity predicates (not one expected answer, ties may be ordered freely); held on everything explored.",
+      "Tie order unchecked by design; NULL keys only with a single sort key.",
+      "DESIGN.md 4/C05")
+claim("C06", "PBT (rapid): DISTINCT / UNION-chain grammar vs. reference first-occurrence dedup and left-associative union model",
+      "Generated-input search against a reference model of DISTINCT and UNION [ALL] chains with optional LIMIT; held on everything explored.",
+      "Same column kind per output column across branches; no ORDER BY on unions.",
+      "DESIGN.md 4/C06")
+claim("C07", "PBT (rapid): metamorphic composed-vs-staged execution of CTEs/derived tables/subqueries + reference EXISTS",
+      "Generated-input search: each composed query is compared with the staged evaluation over materialised intermediates executed by the same engine, so the oracle is independent of C01-C05 semantics; held on everything explored.",
+      "Inner/outer queries come from a conservative grammar; outer and nested column names disjoint in EXISTS.",
+      "DESIGN.md 4/C07")
+claim("C08", "PBT (rapid): metamorphic leaf-wise execution of multi-dimensional FROM (nesting preserved, each leaf == query on that leaf, mix=> == concatenation)",
+      "Generated-input search over ragged arrays of arrays (depth 2-3) with WHERE and projections; held on everything explored.",
+      "Only WHERE + select list inside nested sources.",
+      "DESIGN.md 4/C08")
+claim("C09", "PBT (rapid): shape-directed selector generator vs. independent reference selector evaluator; invalid steps must error; totality + read-only + cache-independence on arbitrary strings; native go fuzz (thorough)",
+      "Generated-input search: selectors derived from the document's shape (with ~15% deliberately invalid steps) judged by a reference evaluator of the documented grammar, arbitrary/mutated selector strings judged for totality and read-only-ness; held on everything explored.",
+      "Meaning asserted only for the documented grammar (assumptions in the evidence file); arbitrary strings are only required to return without panic and without modifying the document.",
+      "DESIGN.md 4/C09")
